@@ -6,6 +6,7 @@ import re
 
 from .extract import Source, ExtractError, strip_map, match_close, sha
 from . import rules
+from . import inline
 
 VERIF = os.path.dirname(os.path.dirname(os.path.abspath(__file__)))
 REPO = os.environ.get('VERIF_REPO', '/repo')
@@ -31,6 +32,8 @@ class FnRec:
         self.external_body = False
         self.module = None
         self.lost = []          # anchors of this function that no longer match (tolerant weave): (key, message, pinned)
+        self.src_addr = None    # address of the function in the source file (addr carries a `__part` suffix for a split proof)
+        self.part = None
 
 
 class Unit:
@@ -44,6 +47,7 @@ class Unit:
         self.cur_module = None
         self.prologue = None   # (text, tmpl_rel, line) inserted as first statement of every woven fn body
         self.modules = []
+        self.deferred = {}     # parent module -> blocks (lines, origin, fns) of split-proof part modules, emitted after the parent closes
 
     def emit(self, text, origin):
         self.lines.append(text)
@@ -64,6 +68,19 @@ TOLERANT = [True]
 FORCE_DROP = [{}]
 
 
+_helper_tab = {}
+
+
+def helper_table():
+    root = SOURCE_ROOT[0]
+    if root not in _helper_tab:
+        try:
+            _helper_tab[root] = inline.helper_table(os.path.join(root, 'src'), os.path.join(PINNED_ROOT, 'src'))
+        except Exception:
+            _helper_tab[root] = {}
+    return _helper_tab[root]
+
+
 def get_source(rel):
     key = (SOURCE_ROOT[0], rel)
     if key not in _sources:
@@ -73,6 +90,7 @@ def get_source(rel):
 
 def reset_sources():
     _sources.clear()
+    _helper_tab.clear()
 
 
 def parse_kv(words):
@@ -217,21 +235,33 @@ def weave_fn(unit, tmpl_rel, blk):
     start, end, first_line, header = src.find_fn(blk['addr'])
     orig = blank_comments(src.text[start:end])
     rec = FnRec()
-    rec.addr = blk['addr']
+    rec.src_hash = sha(orig)
+    # R14: a NEW single-expression helper (absent from the sources the contracts were written against) is expanded at its call
+    # sites (vx/inline.py); no-op on the pinned text and on any tree that adds no such helper
+    inl_fired = {}
+    if SOURCE_ROOT[0] != PINNED_ROOT:
+        tab = helper_table()
+        if tab:
+            orig, inl_fired = inline.expand(orig, tab, os.path.splitext(os.path.basename(blk['src']))[0])
+    part = blk.get('part')
+    rec.addr = blk['addr'] + ('__' + part if part else '')
+    rec.src_addr = blk['addr']
+    rec.part = part
     rec.src = blk['src']
     rec.tags = blk['kv'].get('tags', [])
     rec.safety = blk['kv'].get('safety', [])
     rec.src_line = first_line
-    rec.src_hash = sha(orig)
     rec.impl_header = header
     rec.module = unit.cur_module
 
     replaces = [(a, b) for (k, a, b) in blk['replaces']]
     text, fired = rules.apply_global(orig)
     lost = [] if TOLERANT[0] else None
-    force_drop = FORCE_DROP[0].get(blk['addr'])
-    text, fired2 = rules.apply_local(text, replaces, blk['addr'], lost, force_drop)
+    force_drop = FORCE_DROP[0].get(rec.addr)
+    text, fired2 = rules.apply_local(text, replaces, rec.addr, lost, force_drop)
     fired.update(fired2)
+    for hn, cnt in inl_fired.items():
+        fired['R14.inline_new_helper:' + hn] = cnt
 
     def lose(key, msg, pinned=False):
         if lost is None:
@@ -245,6 +275,12 @@ def weave_fn(unit, tmpl_rel, blk):
     sig, body, sig_st = split_signature(text)
     retname = blk['kv'].get('ret', ['r'])[0]
     sig = name_return(sig, strip_map(sig), retname)
+    if part:
+        # split proof (DESIGN 11.16): this copy of the real text proves one group of the postconditions under the name `<fn>__<part>`
+        fname = blk['addr'].split('::')[-1]
+        sig, nsub = re.subn(r'\bfn\s+' + re.escape(fname) + r'\b', 'fn ' + fname + '__' + part, sig, count=1)
+        if nsub != 1:
+            raise ExtractError('internal: cannot rename %s for part %s' % (blk['addr'], part))
     # visibility (R2)
     if 'trait' not in blk['flags']:
         sig = re.sub(r'^(\s*)(?:pub(?:\([a-z]+\))?\s+)?((?:const\s+)?fn\b)', r'\1pub \2', sig, count=1)
@@ -279,6 +315,15 @@ def weave_fn(unit, tmpl_rel, blk):
 
     if 'external_body' in blk['flags']:
         rec.external_body = True
+    if blk.get('stub'):
+        # split proof: the function other modules call.  Its contract is the common precondition and the UNION of the
+        # postcondition groups, each of which is proved on the real text by one `<fn>__<part>` copy.
+        unit.emit('    { unimplemented!() }', ('t', tmpl_rel, blk['line']))
+        rec.external_body = True
+        rec.rules = fired
+        rec.gen_end = len(unit.lines)
+        unit.fns.append(rec)
+        return
 
     # --- body with insertions
     body_st = strip_map(body)
@@ -378,6 +423,105 @@ def weave_fn(unit, tmpl_rel, blk):
     unit.fns.append(rec)
 
 
+PART_MARK = re.compile(r'@([A-Za-z0-9_]+(?:,[A-Za-z0-9_]+)*)\s*$')
+
+
+def weave_split(unit, tmpl_rel, blk):
+    """Split proof (DESIGN 11.16).  `//@fn ... parts=a,b,c` (placed at module level, outside any impl): the function's real
+    text is woven once per part as `<fn>__<part>` in a nested module `p_<part>`, each copy with the common precondition, the
+    postcondition clauses marked `@<part>` (unmarked clauses go to every part) and the hooks enabled for it (`//@parts`).
+    The function other code calls is a body-less stub whose contract is the common precondition and the union of all
+    postcondition clauses - assembled here, mechanically, from the same lines.  Sound because every copy is the same code
+    verified under the same precondition: it satisfies each group, hence their conjunction."""
+    parts = blk['kv']['parts']
+    src = get_source(blk['src'])
+    header = src.find_fn(blk['addr'])[3]
+    sig_lines = blk['sections'][0][2]
+    idx_e = None
+    for k, (t, lno) in enumerate(sig_lines):
+        if re.match(r'\s*ensures\b', t):
+            idx_e = k
+            break
+    if idx_e is None:
+        raise ExtractError('%s: split proof of %s has no ensures' % (tmpl_rel, blk['addr']))
+    req = sig_lines[:idx_e]
+    et, elno = sig_lines[idx_e]
+    rest = re.sub(r'\bensures\b', '       ', et, count=1)
+    tail = ([(rest, elno)] if rest.strip() else []) + sig_lines[idx_e + 1:]
+    groups, cur = [], []
+    for (t, lno) in tail:
+        cur.append((t, lno))
+        if '//#' in t:
+            m = PART_MARK.search(t)
+            groups.append((set(m.group(1).split(',')) if m else None, cur))
+            cur = []
+    if cur:
+        groups.append((None, cur))
+    for (mk, g) in groups:
+        if mk and not mk <= set(parts):
+            raise ExtractError('%s:%d: unknown part %s' % (tmpl_rel, g[-1][1], mk))
+        code = [re.sub(r'//.*$', '', t).rstrip() for (t, _) in g]
+        code = [c for c in code if c.strip()]
+        if code and not code[-1].endswith(','):
+            raise ExtractError('%s:%d: a postcondition group of a split proof must end with a comma' % (tmpl_rel, g[-1][1]))
+    ens_kw = ('        ensures', elno)
+    parent = unit.cur_module
+
+    def sub_blk(part):
+        b = dict(blk)
+        b['part'] = part
+        secs, reps = [], []
+        mine = [ln for (mk, g) in groups if mk is None or part in mk for ln in g]
+        secs.append(('sig', None, req + [ens_kw] + mine))
+        for sec, sp in list(zip(blk['sections'], blk['sec_parts']))[1:]:
+            if sec[0] != 'none' and (sp is None or part in sp):
+                secs.append(sec)
+        for rp, sp in zip(blk['replaces'], blk['rep_parts']):
+            if sp is None or part in sp:
+                reps.append(rp)
+        b['sections'], b['replaces'] = secs, reps
+        return b
+    # the parent module's own imports (its `use` lines so far), repeated in every part module
+    uses = []
+    for k in range(len(unit.lines) - 1, -1, -1):
+        if re.match(r'\s*pub mod %s \{' % re.escape(parent), unit.lines[k]):
+            break
+        if re.match(r'use\s+[^;]*;\s*$', unit.lines[k]):
+            uses.insert(0, unit.lines[k])
+    for part in parts:
+        # the part module is a SIBLING of the parent (emitted after the parent closes): `--verify-module <parent>` would include a
+        # nested module, and `--verify-only-module` gives up Verus's pruning of the proof context
+        saved = (unit.lines, unit.origin, unit.fns)
+        unit.lines, unit.origin, unit.fns = [], [], []
+        pmod = parent + '__p_' + part
+        unit.emit('pub mod %s { // split proof of %s, part %s' % (pmod, blk['addr'], part), ('t', tmpl_rel, blk['line']))
+        for u in uses:
+            unit.emit(u, ('t', tmpl_rel, blk['line']))
+        unit.emit('use super::%s::*;' % parent, ('t', tmpl_rel, blk['line']))
+        unit.emit(header + ' {', ('t', tmpl_rel, blk['line']))
+        unit.cur_module = pmod
+        if pmod not in unit.modules:
+            unit.modules.append(pmod)
+        try:
+            weave_fn(unit, tmpl_rel, sub_blk(part))
+        finally:
+            unit.cur_module = parent
+        unit.emit('}', ('t', tmpl_rel, blk['line']))
+        unit.emit('} // mod %s' % pmod, ('t', tmpl_rel, blk['line']))
+        block = (unit.lines, unit.origin, unit.fns)
+        unit.lines, unit.origin, unit.fns = saved
+        unit.deferred.setdefault(parent, []).append(block)
+    stub = dict(blk)
+    stub['stub'] = True
+    stub['attrs'] = [('#[verifier::external_body] // vx:split-proof-stub (contract = common precondition + union of the postcondition groups proved by %s)'
+                      % ', '.join('%s__%s' % (blk['addr'].split('::')[-1], p) for p in parts), blk['line'])]
+    stub['sections'] = [('sig', None, req + [ens_kw] + [ln for (mk, g) in groups for ln in g])]
+    stub['replaces'] = [rp for rp, sp in zip(blk['replaces'], blk['rep_parts']) if sp is None]
+    unit.emit(header + ' {', ('t', tmpl_rel, blk['line']))
+    weave_fn(unit, tmpl_rel, stub)
+    unit.emit('}', ('t', tmpl_rel, blk['line']))
+
+
 def weave_item(unit, tmpl_rel, blk):
     src = get_source(blk['src'])
     start, end, first_line = src.find_item(blk['kind'], blk['name'])
@@ -440,6 +584,9 @@ def load_template(unit, path, srcmap, seen=None):
             blk['sections'] = []
             blk['replaces'] = []
             blk['attrs'] = []
+            blk['sec_parts'] = [None]
+            blk['rep_parts'] = []
+            cur_parts = None       # `//@parts a,b`: what follows belongs to these parts of a split proof only (`//@parts *`: to all)
             cur = ('sig', None, [])
             blk['sections'].append(cur)
             i += 1
@@ -451,7 +598,13 @@ def load_template(unit, path, srcmap, seen=None):
                 if ts == '//@end':
                     i += 1
                     break
-                if ts.startswith('//@loopend '):
+                n_sec, n_rep = len(blk['sections']), len(blk['replaces'])
+                if ts.startswith('//@parts '):
+                    w = ts.split()[1]
+                    cur_parts = None if w == '*' else set(w.split(','))
+                    # text that follows a //@parts line continues no earlier section
+                    cur = ('none', None, [])
+                elif ts.startswith('//@loopend '):
                     cur = ('loopend', ts.split()[1], [])
                     blk['sections'].append(cur)
                 elif ts.startswith('//@loop '):
@@ -483,8 +636,14 @@ def load_template(unit, path, srcmap, seen=None):
                     raise ExtractError('%s:%d: unknown directive %s' % (rel, i + 1, ts))
                 else:
                     cur[2].append((t, i + 1))
+                while len(blk['sec_parts']) < len(blk['sections']):
+                    blk['sec_parts'].append(cur_parts)
+                while len(blk['rep_parts']) < len(blk['replaces']):
+                    blk['rep_parts'].append(cur_parts)
                 i += 1
-            if is_fn:
+            if is_fn and blk['kv'].get('parts'):
+                weave_split(unit, rel, blk)
+            elif is_fn:
                 weave_fn(unit, rel, blk)
             else:
                 weave_item(unit, rel, blk)
@@ -496,6 +655,18 @@ def load_template(unit, path, srcmap, seen=None):
             if cm and '//#' in ln:
                 ctags = [x for x in (cm.group(2) or '').replace(',', ' ').split() if x]
                 unit.tmpl_clauses.append((len(unit.lines), cm.group(1), ctags or None, unit.cur_module))
+            mm = re.match(r'\}\s*//\s*mod (\w+)\s*$', ln)
+            if mm and unit.deferred.get(mm.group(1)):
+                # the parent module is closed: emit the part modules of its split proofs as its siblings
+                for (blines, borigin, bfns) in unit.deferred.pop(mm.group(1)):
+                    base = len(unit.lines)
+                    unit.lines.extend(blines)
+                    unit.origin.extend(borigin)
+                    for rec in bfns:
+                        rec.gen_start += base
+                        rec.gen_end += base
+                        rec.clauses = [(gl + base, cid, ctags, kind) for (gl, cid, ctags, kind) in rec.clauses]
+                        unit.fns.append(rec)
             i += 1
 
 
@@ -518,6 +689,8 @@ def _build_unit(name):
     unit = Unit(name)
     path = os.path.join(VERIF, 'contracts', name + '.vc')
     load_template(unit, path, {})
+    if any(unit.deferred.values()):
+        raise ExtractError('split-proof parts of %s were never emitted (no `} // mod <name>` line closes the module)' % ', '.join(k for k, v in unit.deferred.items() if v))
     return unit
 
 
@@ -554,5 +727,7 @@ def trusted_scan(unit):
                         name = m.group(1).strip()
                         break
                 o = unit.origin[idx]
+                if 'vx:split-proof-stub' in unit.lines[idx]:
+                    kind = 'split_proof_stub (not an assumption: every postcondition group is proved on the real text by a renamed copy)'
                 found.append('%s %s (%s:%d)' % (kind, name, o[1], o[2]))
     return sorted(set(found))
